@@ -66,14 +66,23 @@ enum Req {
     New { k: u16, data_seed: u8 },
     /// ask the cache for the plan directly and compare it with a freshly generated one
     Plan { k: u16 },
+    /// fault: a client whose request dies inside the library (a block of 56404 symbols, one more
+    /// than the code supports, makes plan generation panic); the thread catches the panic and goes
+    /// on. The other threads, and this thread's later requests, must be unaffected.
+    Crash,
 }
 impl Req {
     fn k(&self) -> u16 {
         match self {
             Req::New { k, .. } | Req::Plan { k } => *k,
+            Req::Crash => 0,
         }
     }
 }
+
+/// number of client crashes currently being provoked (the panic hook does not record those)
+static EXPECTED_PANICS: std::sync::atomic::AtomicUsize = std::sync::atomic::AtomicUsize::new(0);
+static CRASHES_FIRED: std::sync::atomic::AtomicU64 = std::sync::atomic::AtomicU64::new(0);
 
 #[derive(Clone, Debug, Serialize, Deserialize, PartialEq)]
 struct Scenario {
@@ -120,6 +129,9 @@ fn generate(seed: u64, idx: u64, capacity: usize) -> Scenario {
                 }
                 _ => pool[r.below(pool.len())],
             };
+            if !big && r.chance(1, 25) {
+                reqs.push(Req::Crash);
+            }
             if r.chance(1, 4) {
                 reqs.push(Req::Plan { k });
             } else {
@@ -181,6 +193,7 @@ fn build_reference(s: &Scenario) -> Reference {
             Req::Plan { k } => {
                 plans.entry(*k).or_insert_with(|| SourceBlockEncodingPlan::generate(*k));
             }
+            Req::Crash => {}
         }
     }
     Reference { encoders, plans }
@@ -216,6 +229,20 @@ fn execute(s: &Scenario, reference: &StdArc<Reference>, trace: &Trace) {
         let trace = trace.clone();
         hs.push(thread::spawn(move || {
             for req in reqs {
+                if let Req::Crash = req {
+                    let cfg1 = ObjectTransmissionInformation::new(0, 1, 0, 1, 1);
+                    let data = vec![0u8; 56404];
+                    EXPECTED_PANICS.fetch_add(1, std::sync::atomic::Ordering::SeqCst);
+                    let r = std::panic::catch_unwind(std::panic::AssertUnwindSafe(|| {
+                        let _ = SourceBlockEncoder::new(7, &cfg1, &data);
+                    }));
+                    EXPECTED_PANICS.fetch_sub(1, std::sync::atomic::Ordering::SeqCst);
+                    if r.is_err() {
+                        CRASHES_FIRED.fetch_add(1, std::sync::atomic::Ordering::SeqCst);
+                    }
+                    check_snapshot("after a crashed request");
+                    continue;
+                }
                 let before = check_snapshot("before request");
                 trace.lock().unwrap().push((t, 0, req.k(), before));
                 match req {
@@ -236,6 +263,7 @@ fn execute(s: &Scenario, reference: &StdArc<Reference>, trace: &Trace) {
                             "ORACLE[transparency] intermediate symbols of the encoder for K={k} differ from the uncached single-thread encoder"
                         );
                     }
+                    Req::Crash => unreachable!(),
                     Req::Plan { k } => {
                         let plan = verif_plan_cache::get_or_generate(k);
                         assert!(
@@ -366,6 +394,19 @@ fn run_scenario(s: &Scenario, sched: &str, sched_seed: u64, iters: usize, dir: &
             Runner::new(RandomScheduler::new_from_seed(sched_seed, iters), cfg).run(body);
         }
     }
+    // shuttle's panic hook persists a schedule for every panic, also the provoked and caught ones:
+    // an execution that completed has no use for them
+    if let Ok(rd) = std::fs::read_dir(dir) {
+        for e in rd.flatten() {
+            if e.file_name().to_string_lossy().starts_with("schedule") {
+                let _ = std::fs::remove_file(e.path());
+            }
+        }
+    }
+    let fired = CRASHES_FIRED.swap(0, std::sync::atomic::Ordering::SeqCst);
+    if fired > 0 {
+        *stats.probes.entry("client_crash_inside_plan_generation".to_string()).or_insert(0) += fired;
+    }
     let cap = verif_plan_cache::CAPACITY;
     for tr in traces.lock().unwrap().iter() {
         stats.executions += 1;
@@ -419,6 +460,9 @@ fn install_hook(dir: &Path) {
             "<non-string panic>".to_string()
         };
         let loc = info.location().map(|l| format!("{}:{}", l.file(), l.line())).unwrap_or_default();
+        if EXPECTED_PANICS.load(std::sync::atomic::Ordering::SeqCst) > 0 && msg.contains("MAX_SOURCE_SYMBOLS_PER_BLOCK") {
+            return; // the provoked client crash itself
+        }
         let p = dir.join("panic.txt");
         if !p.exists() {
             let _ = std::fs::write(p, format!("{msg} @ {loc}"));
@@ -508,7 +552,8 @@ fn read_failure(dir: &Path) -> Option<(Scenario, u64, String, String)> {
         .filter(|p| p.file_name().map(|n| n.to_string_lossy().starts_with("schedule")).unwrap_or(false))
         .collect();
     sched_files.sort();
-    let schedule = std::fs::read_to_string(sched_files.first()?).ok()?;
+    // the last one: earlier files (if any) belong to provoked client crashes of the same execution
+    let schedule = std::fs::read_to_string(sched_files.last()?).ok()?;
     let panic = std::fs::read_to_string(dir.join("panic.txt")).unwrap_or_else(|_| "<process died without a recorded panic>".into());
     Some((s, idx, schedule, panic))
 }
@@ -685,6 +730,9 @@ fn driver(tier: &str) -> i32 {
     }
     for k in ["two_threads_generated_same_size_concurrently", "eviction_ran", "evicted_size_requested_again", "concurrent_misses_while_cache_full"] {
         total.probes.entry(k.to_string()).or_insert(0);
+    }
+    if capacity == 3 {
+        total.probes.entry("client_crash_inside_plan_generation".to_string()).or_insert(0);
     }
 
     let mut code = 0;
